@@ -154,7 +154,9 @@ def snapshot(x, pe):
     if isinstance(x, pe.Corr):
         return ('Corr', x.T, x.N, x.tag, None if x.prange is None else tuple(x.prange), tuple(snapshot(c, pe) for c in x.content))
     if isinstance(x, pe.Obs):
-        return ('Obs', float(x.value).hex() if not isinstance(x.value, complex) else repr(x.value), tuple((n, tuple(x.idl[n]), x.deltas[n].tobytes()) for n in sorted(x.deltas)), x.tag)
+        # ... including the state of its error analysis (an operand that was never analysed stays unanalysed)
+        return ('Obs', float(x.value).hex() if not isinstance(x.value, complex) else repr(x.value), tuple((n, tuple(x.idl[n]), x.deltas[n].tobytes()) for n in sorted(x.deltas)), x.tag,
+                repr(getattr(x, '_dvalue', None)), repr(getattr(x, 'ddvalue', None)), tuple(sorted(getattr(x, 'S', {}).items())), tuple(sorted(getattr(x, 'e_windowsize', {}).items())))
     if isinstance(x, pe.CObs):
         return ('CObs', snapshot(x.real, pe), snapshot(x.imag, pe))
     if isinstance(x, np.ndarray):
